@@ -22,42 +22,82 @@ def unhx(s: str) -> bytes:
 
 
 # ----------------------------------------------------------------------------- drivers
-def run_lines(exe, lines, timeout=600, env=None, per_line_timeout=None):
+def run_lines(exe, lines, timeout=600, env=None, per_line_timeout=None, stall=None):
     """Feed `lines` (list of str) to a line-protocol driver; return list of output lines,
     one per input line.  If the driver dies (sanitizer abort, signal) on line k, that line's
-    result is 'SAN:<kind>' / 'CRASH:<sig>' and the driver is restarted on the rest."""
+    result is 'SAN:<kind>' / 'CRASH:<sig>' and the driver is restarted on the rest.  If it produces
+    no new output line for `stall` seconds (default: 90, or per_line_timeout) the line it is working on
+    is 'HANG' and the driver is restarted on the rest."""
+    import threading, queue as _q
+    stall = stall or per_line_timeout or 90
     out = []
     i = 0
     n = len(lines)
     restarts = 0
+    hangs = 0
+    t_end = time.time() + max(timeout, stall)
     while i < n:
         chunk = lines[i:]
         data = ("\n".join(chunk) + "\n").encode()
+        p = subprocess.Popen([exe], stdin=subprocess.PIPE, stdout=subprocess.PIPE, stderr=subprocess.PIPE, env=env)
+        q = _q.Queue()
+        errbuf = []
+
+        def feed():
+            try:
+                p.stdin.write(data)
+                p.stdin.close()
+            except (BrokenPipeError, OSError):
+                pass
+
+        def rd():
+            for ln in p.stdout:
+                q.put(ln)
+            q.put(None)
+
+        def rderr():
+            errbuf.append(p.stderr.read())
+        ths = [threading.Thread(target=f, daemon=True) for f in (feed, rd, rderr)]
+        for t in ths:
+            t.start()
+        got = []
+        hang = False
+        while True:
+            try:
+                ln = q.get(timeout=min(stall, max(1.0, t_end - time.time())))
+            except _q.Empty:
+                hang = True
+                break
+            if ln is None:
+                break
+            got.append(ln.decode(errors="replace").rstrip("\n"))
+            if len(got) >= len(chunk):
+                break
+        if hang:
+            p.kill()
         try:
-            p = subprocess.run([exe], input=data, stdout=subprocess.PIPE, stderr=subprocess.PIPE,
-                               timeout=timeout, env=env)
-            got = p.stdout.decode(errors="replace").split("\n")
-            if got and got[-1] == "":
-                got.pop()
-            rc = p.returncode
-            err = p.stderr.decode(errors="replace")
-        except subprocess.TimeoutExpired as e:
-            got = (e.stdout or b"").decode(errors="replace").split("\n")
-            if got and got[-1] == "":
-                got.pop()
-            rc = "timeout"
-            err = ""
+            p.wait(timeout=30)
+        except subprocess.TimeoutExpired:
+            p.kill()
+            p.wait()
+        for t in ths:
+            t.join(timeout=5)
+        rc = p.returncode
+        err = (errbuf[0] if errbuf else b"").decode(errors="replace")
         if len(got) >= len(chunk):
             out.extend(got[:len(chunk)])
             break
-        # died on line i+len(got)
         out.extend(got)
-        kind = "HANG" if rc == "timeout" else classify_crash(rc, err)
+        kind = "HANG" if hang else classify_crash(rc, err)
         out.append(kind)
+        hangs += 1 if hang else 0
+        if hangs >= 3:          # enough evidence; do not wait `stall` seconds for every remaining line
+            out.extend(["HANG:skipped-after-3-hangs"] * (n - len(out)))
+            break
         i += len(got) + 1
         restarts += 1
-        if restarts > 200:
-            out.extend(["CRASH:too-many"] * (n - len(out)))
+        if restarts > 200 or time.time() > t_end + 5:
+            out.extend(["CRASH:too-many" if restarts > 200 else "HANG:overall-timeout"] * (n - len(out)))
             break
     return out
 
@@ -244,12 +284,12 @@ class Ctx:
         shutil.rmtree(self.tmp, ignore_errors=True)
 
 
-def diff_streams(ctx, unit, lines, model_exe=PVDRIVER, nontrivial=None, impl_exe=None, timeout=900):
+def diff_streams(ctx, unit, lines, model_exe=PVDRIVER, nontrivial=None, impl_exe=None, timeout=900, stall=None):
     """run `lines` through implementation driver and model driver; returns list of
     (index, line, impl_out, model_out) for disagreements."""
     impl_exe = impl_exe or ctx.impl()
-    a = run_lines(impl_exe, lines, timeout=timeout, env=san_env())
-    b = run_lines(model_exe, lines, timeout=timeout)
+    a = run_lines(impl_exe, lines, timeout=timeout, env=san_env(), stall=stall)
+    b = run_lines(model_exe, lines, timeout=timeout, stall=stall)
     bad = []
     keys = []
     for i, (l, x, y) in enumerate(zip(lines, a, b)):
